@@ -230,6 +230,18 @@ impl<'a> Gen<'a> {
   }
 }
 
+impl<'a> Gen<'a> {
+  /// A context literal whose later entries use earlier ones (what the service parses as request body).
+  fn context_text(&mut self, d: u32) -> String {
+    match self.rng.index(4) {
+      0 => format!("{{u: {}, v: u + 1, w: [u, v], Order Size: v * 2}}", self.num(d)),
+      1 => format!("{{k: {}, f: function(q) q + k, r: f(k)}}", self.num(d)),
+      2 => format!("{{m: {}, n: for x in m return x + a, o: {{p: n, q: count(p)}}}}", self.list(d)),
+      _ => format!("{{t: {}, flag: not(flag), s: t + s}}", self.string(d)),
+    }
+  }
+}
+
 fn pushes_context(text: &str) -> bool {
   text.contains("for ") || text.contains("some ") || text.contains("every ") || text.contains("function") || text.contains('{') || text.contains("[item") || text.contains("[age") || text.contains("[name") || text.contains("inc(")
 }
@@ -690,6 +702,51 @@ impl C13 {
             }
           }
         }
+        "ctx" if !parr(plan, "ctxs").is_empty() => {
+          // a context literal parsed AND evaluated on a long-lived scope, as the service does with request bodies
+          let ctxs = parr(plan, "ctxs");
+          let ci = (pu64(op, "c") as usize) % ctxs.len();
+          let text = ctxs[ci].as_str().unwrap_or("{}").to_string();
+          let s = (pu64(op, "s") as usize) % scopes.len();
+          let ho = std::mem::take(&mut handover);
+          let before = snapshot(&scopes[s]);
+          let scope_ref = &scopes[s];
+          let r = on_thread(ho, || catch_unwind(AssertUnwindSafe(|| dmntk_feel_evaluator::evaluate_context(scope_ref, &text).map(|c| format!("{:?}", c)))));
+          match r {
+            Ok(Ok(v)) => {
+              let after = snapshot(&scopes[s]);
+              log(format!("ctx c{} on s{} -> {}", ci, s, v.chars().take(120).collect::<String>()), &mut h, &mut tail);
+              if before != after {
+                out.violation = Some(viol("context-evaluation-changed-scope", "context-literal", idx, format!("after parsing and evaluating `{}` the scope holds what it held before: {}", text, before.0), after.0));
+                break;
+              }
+              c.inc("ctx.ok");
+              let list = seen.entry((3, ci, s)).or_default();
+              if let Some((old, _)) = list.first() {
+                if *old != v {
+                  out.violation = Some(viol("value-not-repeatable", "context-literal-text", idx, format!("`{}` on scope {} gives {}", text, s, old), v.clone()));
+                  break;
+                }
+                c.inc("ctx.repeated_and_compared");
+              }
+              list.push((v, 0));
+            }
+            Ok(Err(_)) => {
+              // a failed parse promises nothing about the scope: rebuild it
+              c.inc("ctx.failed");
+              if let Some(fresh) = build_scope(scope_specs[s].0, scope_specs[s].1) {
+                scopes[s] = fresh;
+              }
+            }
+            Err(_) => {
+              let _ = take_last_panic();
+              c.inc("crashes_observed.ctx");
+              if let Some(fresh) = build_scope(scope_specs[s].0, scope_specs[s].1) {
+                scopes[s] = fresh;
+              }
+            }
+          }
+        }
         "table" if !tables.is_empty() => {
           let t = (pu64(op, "t") as usize) % tables.len();
           let s = (pu64(op, "s") as usize) % scopes.len();
@@ -861,6 +918,13 @@ impl Sim for C13 {
       let cb = g.clock_bound;
       exprs.push(json!({"text": text, "clock_bound": cb, "home": rng.index(n_scopes)}));
     }
+    let n_ctxs = rng.index(3);
+    let mut ctxs = vec![];
+    for _ in 0..n_ctxs {
+      let depth = rng.index(3) as u32;
+      let mut g = Gen { rng: &mut rng, clock_bound: false };
+      ctxs.push(json!(g.context_text(depth)));
+    }
     let n_tables = rng.index(3);
     let tables: Vec<Value> = (0..n_tables).map(|_| json!(rng.index(TABLES.len()))).collect();
     let n_models = rng.index(4);
@@ -878,6 +942,8 @@ impl Sim for C13 {
         json!({"op": "eval", "e": e, "s": s})
       } else if roll < 65 {
         json!({"op": "parse", "e": rng.index(n_exprs), "s": rng.index(n_scopes)})
+      } else if roll < 70 && n_ctxs > 0 {
+        json!({"op": "ctx", "c": rng.index(n_ctxs), "s": rng.index(n_scopes)})
       } else if roll < 75 && n_tables > 0 {
         json!({"op": "table", "t": rng.index(n_tables), "s": rng.index(n_scopes)})
       } else if roll < 85 && n_models > 0 {
@@ -894,7 +960,7 @@ impl Sim for C13 {
       };
       ops.push(op);
     }
-    json!({"scopes": scopes, "exprs": exprs, "tables": tables, "models": models, "clock0": clock0, "ops": ops})
+    json!({"scopes": scopes, "exprs": exprs, "ctxs": ctxs, "tables": tables, "models": models, "clock0": clock0, "ops": ops})
   }
   fn exec(&self, plan: &Value, _mode: &ExecMode) -> Outcome {
     // evaluation code runs on a thread with the 8 MiB stack the service's workers have
@@ -930,7 +996,7 @@ impl Sim for C13 {
     out
   }
   fn rule_text(&self) -> String {
-    "each run = one history of 10..60 operations (evaluate a prepared expression on its own or a foreign scope, re-parse on another scope, evaluate a recognised decision table, evaluate an invocable, move the clock / let it tick on every read, hand the objects over to another OS thread) over 2..4 long-lived scopes of 1..3 stacked contexts binding the same names to different values, 3..8 expressions from a seeded grammar of context-pushing constructs nested to depth 3 with deliberately failing sub-expressions, 0..2 tables, 0..2 model calls; distinct = distinct (expression text, scope shape, first-or-later position) triples; non-trivial = the expression pushes a temporary context".to_string()
+    "each run = one history of 10..60 operations (evaluate a prepared expression on its own or a foreign scope, re-parse on another scope, evaluate a recognised decision table, evaluate an invocable with one of five input variants, parse-and-evaluate a context literal on a long-lived scope as the service does with request bodies, move the clock / let it tick on every read, hand the objects over to another OS thread) over 2..4 long-lived scopes of 1..3 stacked contexts binding the same names to different values, 3..8 expressions from a seeded grammar of context-pushing constructs nested to depth 3 with deliberately failing sub-expressions, 0..2 tables, 0..2 model calls; distinct = distinct (expression text, scope shape, first-or-later position) triples; non-trivial = the expression pushes a temporary context".to_string()
   }
   fn assumptions(&self) -> Vec<String> {
     vec![
@@ -950,6 +1016,7 @@ impl Sim for C13 {
       "eval.on_foreign_scope",
       "parse.reparsed_on_other_scope",
       "table.repeated_and_compared",
+      "ctx.repeated_and_compared",
       "model.repeated_and_compared",
       "model.compared_with_baseline",
       "fault.clock_moved",
